@@ -531,6 +531,13 @@ func transforms3() []struct {
 		{"Rotation(Z,pi/4)", model3d.Rotation(model3d.Z(1), math.Pi/4)},
 		{"AxisSqueeze(Z,0.2..1.2,0.1)", &toolbox3d.AxisSqueeze{Axis: toolbox3d.AxisZ, Min: 0.2, Max: 1.2, Ratio: 0.1}},
 		{"AxisPinch(Y,-1..1,3)", &toolbox3d.AxisPinch{Axis: toolbox3d.AxisY, Min: -1, Max: 1, Power: 3}},
+		// chains whose neighbours are of the same kind and do not commute (a chain that merges neighbours must merge
+		// them in application order), also nested and inverted
+		{"Joined(Matrix3 stretch, Matrix3 quarter turn)", model3d.JoinedTransform{&model3d.Matrix3Transform{Matrix: &model3d.Matrix3{3, 0, 0, 0, 1, 0, 0, 0, 0.5}}, &model3d.Matrix3Transform{Matrix: &model3d.Matrix3{0, 1, 0, -1, 0, 0, 0, 0, 1}}}},
+		{"Joined(Matrix3 shear, Matrix3 general, Matrix3 stretch)", model3d.JoinedTransform{&model3d.Matrix3Transform{Matrix: &model3d.Matrix3{1, 0, 0, 0.5, 1, 0, 0, -0.25, 1}}, &model3d.Matrix3Transform{Matrix: &model3d.Matrix3{2, 0.3, -0.1, -0.4, 1.5, 0.2, 0.1, 0.7, -1.2}}, &model3d.Matrix3Transform{Matrix: &model3d.Matrix3{3, 0, 0, 0, 1, 0, 0, 0, 0.5}}}},
+		{"Joined(VecScale, VecScale, Translate, Translate)", model3d.JoinedTransform{&model3d.VecScale{Scale: model3d.XYZ(3, 1, 0.5)}, &model3d.VecScale{Scale: model3d.XYZ(-1, 2, 1)}, &model3d.Translate{Offset: model3d.XYZ(1, 0, 0)}, &model3d.Translate{Offset: model3d.XYZ(0, -2, 0.5)}}},
+		{"Joined(Rotation, Rotation)", model3d.JoinedTransform{model3d.Rotation(model3d.X(1), math.Pi/2), model3d.Rotation(model3d.Z(1), 0.7)}},
+		{"Joined(Joined(stretch, turn), shear).Inverse", model3d.JoinedTransform{model3d.JoinedTransform{&model3d.Matrix3Transform{Matrix: &model3d.Matrix3{3, 0, 0, 0, 1, 0, 0, 0, 0.5}}, &model3d.Matrix3Transform{Matrix: &model3d.Matrix3{0, 1, 0, -1, 0, 0, 0, 0, 1}}}, &model3d.Matrix3Transform{Matrix: &model3d.Matrix3{1, 0, 0, 0.5, 1, 0, 0, -0.25, 1}}}.Inverse()},
 		{"Joined(Rotation,Translate,VecScale)", model3d.JoinedTransform{model3d.Rotation(model3d.XYZ(0.3, -0.2, 0.9).Normalize(), -1.3), &model3d.Translate{Offset: model3d.XYZ(0, 0, 3)}, &model3d.VecScale{Scale: model3d.XYZ(1, -0.5, 2)}}},
 	}
 }
